@@ -122,8 +122,24 @@ func streamIndex() {
 			if nested {
 				doc, base = `{"a":`+arr+`,"b":1}`, "/a"
 			}
+			type tokv struct {
+				t       string
+				noSlash bool
+			}
+			var tvs []tokv
 			for _, t := range toks {
-				p := encString(base+"/"+t, false)
+				tvs = append(tvs, tokv{t, false})
+			}
+			for _, t := range []string{"0", "1", "-1", "-", "x", "a", "5"} {
+				tvs = append(tvs, tokv{t, true}) // the same pointer without its leading '/'
+			}
+			for _, tv := range tvs {
+				t := tv.t
+				full := base + "/" + t
+				if tv.noSlash {
+					full = full[1:]
+				}
+				p := encString(full, false)
 				var ops []string
 				ops = append(ops,
 					`{"op":"add","path":`+p+`,"value":99}`,
@@ -135,8 +151,8 @@ func streamIndex() {
 					`{"op":"copy","from":`+encString(base+"/0", false)+`,"path":`+p+`}`,
 					`{"op":"move","from":`+p+`,"path":`+encString(base+"/0", false)+`}`,
 					`{"op":"move","from":`+encString(base+"/0", false)+`,"path":`+p+`}`,
-					`{"op":"add","path":`+encString(base+"/"+t+"/z", false)+`,"value":1}`,
-					`{"op":"remove","path":`+encString(base+"/"+t+"/a", false)+`}`)
+					`{"op":"add","path":`+encString(full+"/z", false)+`,"value":1}`,
+					`{"op":"remove","path":`+encString(full+"/a", false)+`}`)
 				for _, op := range ops {
 					for _, fl := range []aopts{{neg: true, esc: true}, {neg: false, esc: true}, {neg: true, allow: true, esc: true}, {neg: false, allow: true, esc: true},
 						{neg: true, ensure: true, esc: true}} {
